@@ -46,6 +46,10 @@ var checks = map[string]checkCfg{
 		Phases: []phase{
 			{Name: "enum", Variant: "plain", Tests: "^TestC03$", QuickShards: 4, ThoroughShards: 8},
 			rp("rapid", "^TestC03Rapid$", 4, 1500, 16, 20000)}},
+	"C04": {Level: "exploration", Technique: "rapid histories; ghost attribute table + backend lstat comparison of every fattr3/wcc_attr sighting",
+		Rule:        "cases are rapid-generated histories (C02 namespace ops + WRITE/READ/ACCESS/SETATTR with arbitrary 32-bit mode words) over an empty or pre-seeded tree (dir, file, symlink, dangling symlink) under a drawn cache configuration; every attribute-carrying field of every reply is attributed to its object; non-trivial = some object was sighted through >=2 different procedures, or sighted after a successful SETATTR(mode) on a directory; distinct = FNV-64 of the case JSON",
+		Assumptions: append([]string{"directory sizes are not compared (implementation-specific)", "namespace verdicts that differ from the tree model abandon the case here (they are C02's violations)"}, baseAssumptions...),
+		Phases:      []phase{rp("rapid", "^TestC04$", 6, 1500, 16, 10000)}},
 	"C02": {Level: "exploration", Technique: "rapid histories vs POSIX tree model + cached-vs-uncached differential",
 		Rule:        "cases are rapid-generated sequential histories of LOOKUP/CREATE/MKDIR/SYMLINK/REMOVE/RMDIR/RENAME/READDIR(PLUS)/GETATTR/READLINK over names {a,b,c} to depth 3, addressed through every handle ever issued (stale ones included); each history runs under the all-off baseline and k cached configurations (quick 3, thorough 6 of 15); non-trivial = a read-type request on a name or directory affected by an earlier successful mutation, executed under a configuration with at least one cache on; distinct = FNV-64 of the case JSON",
 		Assumptions: append([]string{"documented latitude L1-L7 of DESIGN.md §5 C02 (REMOVE of empty dir, UNCHECKED/EXCLUSIVE on existing objects, error code identity not compared against the model, path-bound handles)"}, baseAssumptions...),
